@@ -183,6 +183,31 @@ example : parseNum " 12 ".toList = ofNat 12 ∧ parseNum "1e3".toList = nanBits 
 example : divB (ofNat 1) (negB 0) = infBits true := by decide
 example : modB (ofNat 5) (ofInt (-2)) = ofNat 1 ∧ modB (ofInt (-5)) (ofNat 2) = ofInt (-1) := by decide
 
+/-- translate never lengthens: each character becomes one character or none -/
+theorem translate_length_le (s frm to : Str) : (translateS s frm to).length ≤ s.length := by
+  unfold translateS; exact List.length_filterMap_le _ _
+
+/-- with an empty second argument translate is the identity -/
+theorem translate_nothing (s to : Str) : translateS s [] to = s := by
+  unfold translateS
+  induction s with
+  | nil => rfl
+  | cons c r ih => simp at ih ⊢
+
+/-- characters outside the second argument pass through unchanged, wherever they stand -/
+theorem translate_untouched (s frm to : Str) (h : ∀ c ∈ s, c ∉ frm) : translateS s frm to = s := by
+  unfold translateS
+  induction s with
+  | nil => rfl
+  | cons c r ih =>
+    have hc : frm.findIdx? (· == c) = none := by
+      rw [List.findIdx?_eq_none_iff]
+      intro x hx; have := h c (by simp)
+      simp only [beq_eq_false_iff_ne, ne_eq]
+      intro e; subst e; exact this hx
+    simp only [List.filterMap_cons, hc]
+    rw [ih (fun c' hc' => h c' (by simp [hc']))]
+
 /-! ### normalize-space, for every string (added 2026-09-23) -/
 /-- every white-space character is a single U+0020 directly followed by a non-white-space character -/
 def wellSpaced : Str → Bool
